@@ -86,6 +86,11 @@ def draw_config(rng, nb=None, multi_dir=False, uniform_alpha=None, att_zero=Fals
                 alpha[w, :] = 0.0
     else:
         alpha = np.full((6, nb), float(uniform_alpha))
+    if uniform_alpha is None and rng.random() < 0.3:
+        # two (or three) walls of the same material
+        alpha[1, :] = alpha[0, :]
+        if rng.random() < 0.5:
+            alpha[4, :] = alpha[0, :]
     att = np.zeros(nb) if att_zero else np.round(rng.uniform(0.0, 0.08, nb), 4)
     if not att_zero and nb > 1:
         # lossless and lossy bands side by side (exact zeros next to positive values)
@@ -177,9 +182,15 @@ def build(cfg, bake=True):
         order = [(3 * k + 1) % nw for k in range(nw)] if nw % 3 else list(range(nw))[::-1]
     else:
         order = list(range(nw))
+    # walls of the same material get the SAME FrequencyData object (one material object handed to several
+    # set_wall_brdf calls, as a user would do)
+    shared = {}
     for w in order:
         tab = wall_table(cfg, min(w, 5), din.csize, dout.csize)
-        radi.set_wall_brdf([w], pf.FrequencyData(tab, cfg["freqs"]), din, dout)
+        key = tab.tobytes()
+        if key not in shared:
+            shared[key] = pf.FrequencyData(tab, cfg["freqs"])
+        radi.set_wall_brdf([w], shared[key], din, dout)
     radi.set_air_attenuation(pf.FrequencyData(cfg["att"], cfg["freqs"]))
     if bake:
         radi.bake_geometry()
